@@ -644,6 +644,8 @@ RETRY_SCALE = 3
 def run_loop_session(case: dict) -> tuple[list[str], dict]:
     """(canonical lines, aux).  A bound that expires: the case is run again with 3x the bounds; expired again = the
     lines of that second run (they say what did not happen); not expired = InfraError (not reproducible)"""
+    if case.get("sender") and int(case.get("after", 1)) == 0:
+        case = {**case, "sender": False}    # (the close comes before the helper task could start its send: nothing to park)
     lines, b = _run_once(case, 1)
     if b.expired:
         first = list(b.expired)
@@ -697,6 +699,8 @@ def normalise(case: dict) -> dict:
         c["sender"] = False
         if c.get("how") == "cancel":
             c["how"] = "aclose"
+    if c.get("sender") and int(c.get("after", 1)) == 0:
+        c["sender"] = False         # (the close comes before the helper task could start its send: nothing to park)
     if c.get("sender"):
         c["partial"] = False        # (no dialogue in this mode: requests are sent whole)
     if c.get("how") == "cancel":
